@@ -207,7 +207,12 @@ pub fn execute(sc: &Scenario) -> Outcome {
     }
     let mut fired_kinds: std::collections::BTreeSet<String> = Default::default();
     let mut arms: std::collections::BTreeSet<&'static str> = Default::default();
+    let t_start = std::time::Instant::now();
     for sw in &sc.switch_sets {
+        if t_start.elapsed().as_secs() >= 6 {
+            stats.inc("heavy_scenarios_cut_short");
+            break;
+        }
         for h in &sc.hash_seeds {
             let r = if *sw == 0 {
                 (*rule).clone()
